@@ -76,6 +76,18 @@ CHECKS = {
             'Gen.frontend lists the handshake steps of RemoteWorker._run_frontend, whether each is inside the try, what the handler catches, whether it records the error and sets the start-up event and whether _start re-raises. C20_never_hangs: every step x every failure it can produce ends in the constructor raising; C20_general: the same for any handshake of any length under the generated handler properties; C20_server_answers_or_closes ties in the server side. Every run plays the server side with a scripted peer (control-address and runtime-info messages cut at byte offsets with FIN/RST, refused control connection, undecodable info), uses a real server for unknown context ids, a server SIGKILLed during construction and a backend child that dies before reporting, and kills a ProcessWorker child at line events before it reports.',
             'A peer that stays connected and silent for ever is outside the property. Model of the constructor is structural (no timing).',
             '§7 C20'),
+    'C09': ('real-pool histories (model/impl judged by the property oracle); Lean side: the single-run Pool model of C07/C08 - multi-run theorems not finished',
+            'Every run executes seeded histories over add_worker (ok / failing constructor / failing registration), run (incl. poison inputs), restart_workers (forced and unforced), SIGKILL / terminate of a worker, a worker stuck in an uncooperative target, and the four ways of leaving a pool, on real mixed thread/process (and remote) pools; judged: no child process outlives the pool, every run returns results of its own inputs only, a worker dead before a run is never enqueued to, restarted workers are alive, a failed add_worker leaks nothing and registers nothing.',
+            'Lean coverage is partial: the bookkeeping of one run is the model of C07/C08; cross-run theorems (closed set persists, per-run reset) are not proved yet - this property currently rests on the exploration of histories. Process death is an OS fact.',
+            '§7 C09'),
+    'C12': ('Lean 4 proof (any registry of children, induction-free map argument) over the two shutdown paths REGENERATED from /repo + real servers with children in mixed states stopped by terminate() and SIGTERM',
+            'Gen.finallyPath / Gen.sigtermPath record for the finally block of RemoteServer.run and for the SIGTERM handler whether every child and context is visited on the live registry, each child is guarded by its own try, the stop is forced and survivors are SIGTERMed. C12_reaped(_finally/_sigterm): for every registry every child is dead afterwards and every parent-side worker dead with a definite outcome; C12_parent_learns: running/idle children report WorkerTerminatedError, killed ones an error without it, finished ones keep their outcome. Every run starts real servers with 0-4 children (cooperative, swallowing, idle/busy persistent, finished, in a context), stops them by terminate(), by SIGTERM and by SIGTERM arriving during a terminate()-initiated cleanup, and checks /proc for descendants and every parent-side worker (dead, has_error, error type, no blocking).',
+            'Signal delivery, reaping, the orphaned context helper noticing EOF: measured, not proved. Child states are abstract.',
+            '§7 C12'),
+    'C18': ('Lean 4 proof (refinement of a dictionary specification, induction over operation histories) + the same histories on a real server',
+            'C18_refines: for every history of create / delete / start-worker-in-context operations the replies of the server\'s context table equal those of a dictionary of ids and the registered set is the dictionary\'s; C18_duplicate, C18_reregister, C18_unknown_harmless are its named corollaries. Every run executes seeded histories (ids 1-3, duplicates, deletes of unknown ids, workers in known and unknown contexts, faulty clients that drop inside a worker-in-context request) on a real server: replies compared with the model, workers must compute their context\'s target with its defaults (tagged per context generation), a deleted context\'s workers must end, bystanders must keep working, the server must stay alive.',
+            'Context payloads are abstract in the model; "runs the context\'s target with its defaults" is established on the real server only.',
+            '§7 C18'),
 }
 NOT_YET = 'check not built yet in this session (work in progress; see DESIGN.md §13 for the order)'
 
